@@ -40,19 +40,19 @@ theorem applies_of_known (hS : schemaOK S = true) (hlk : S.lookup td.name = some
       simp [isKnown, TypeDef.name, this] at hk
 
 theorem fragPair_exists (ft : List (Name × Name)) (td : TypeDef) {s : Sel} (h : isFieldSel s = false) :
-    ∃ c f, FragPair ft td s c f := by
+    ∃ c f, FragPair ft (holderTable td.name sels) td s c f := by
   cases s with
   | field a n ss => simp [isFieldSel] at h
   | inline c ss => exact ⟨_, _, rfl, rfl⟩
   | spread g => exact ⟨_, _, rfl, rfl⟩
 
-theorem fragPair_key {s : Sel} {c f : Name} (h : FragPair ft td s c f) : f = memberKey td s ∧ isFieldSel s = false := by
+theorem fragPair_key {s : Sel} {c f : Name} (h : FragPair ft (holderTable td.name sels) td s c f) : f = memberKey (holderTable td.name sels) td s ∧ isFieldSel s = false := by
   cases s with
   | field a n ss => cases h
   | inline c' ss => exact ⟨h.2, rfl⟩
   | spread g => exact ⟨h.2, rfl⟩
 
-theorem fragPair_fun {s : Sel} {c f c' f' : Name} (h : FragPair ft td s c f) (h' : FragPair ft td s c' f') :
+theorem fragPair_fun {s : Sel} {c f c' f' : Name} (h : FragPair ft (holderTable td.name sels) td s c f) (h' : FragPair ft (holderTable td.name sels) td s c' f') :
     c = c' ∧ f = f' := by
   cases s with
   | field a n ss => cases h
@@ -64,14 +64,14 @@ def ActRel (S : Schema) (env : List Decl) (frag : Name → Name → List JMember
     (td : TypeDef) (sels : List Sel) (fs : List GoField) (T : Name) (kvs : List JMember)
     (base : List GoValField) (acts : List Action) (bf w : GoValField) : Prop :=
   ActionDecodes env fs (.obj kvs) base acts bf w ∧
-  (∀ s ∈ sels, bf.name = fieldName (memberKey td s) →
+  (∀ s ∈ sels, bf.name = fieldName (memberKey (holderTable td.name sels) td s) →
     ∀ Ls, selLeavesSel S frag T td kvs s = some Ls → ∀ x ∈ Ls, x ∈ leavesVFields [w])
 
 theorem level_good (hS : schemaOK S = true) (hfrag : FragHyp S ft env frag)
     (hlk : S.lookup td.name = some td)
-    (hmem : Forall2 (MemberGood S env frag td) sels es)
+    (hmem : Forall2 (MemberGood S env frag (holderTable td.name sels) td) sels es)
     {conds : Conds}
-    (hconds : ∀ c f, Conds.has conds c f ↔ ∃ s ∈ sels, FragPair ft td s c f)
+    (hconds : ∀ c f, Conds.has conds c f ↔ ∃ s ∈ sels, FragPair ft (holderTable td.name sels) td s c f)
     (hok : setOK S ft td sels = true)
     (htn : td.isObject = false → (∃ s ∈ sels, isFieldSel s = false) → (typenameFieldOf sels).isSome = true)
     {tyB : GoTy}
@@ -96,9 +96,9 @@ theorem level_good (hS : schemaOK S = true) (hfrag : FragHyp S ft env frag)
     Decodes.struct hdup hdec
   obtain ⟨hS1, hS2⟩ := selLeavesSels_mem hL
   -- from a member to its entry, its Go field and its base value
-  have chain : ∀ s ∈ sels, ∃ e ∈ es, MemberGood S env frag td s e ∧ toGoField e ∈ sortFields (es.map toGoField) ∧
+  have chain : ∀ s ∈ sels, ∃ e ∈ es, MemberGood S env frag (holderTable td.name sels) td s e ∧ toGoField e ∈ sortFields (es.map toGoField) ∧
       ∃ bf ∈ vfs, BaseRel S env frag td sels (sortFields (es.map toGoField)) T kvs (toGoField e) bf ∧
-        bf.name = fieldName (memberKey td s) := by
+        bf.name = fieldName (memberKey (holderTable td.name sels) td s) := by
     intro s hs
     obtain ⟨e, he, hg⟩ := Forall2.mem_left hmem s hs
     have hgm : toGoField e ∈ sortFields (es.map toGoField) := mem_fs_iff.mpr ⟨e, he, rfl⟩
@@ -127,17 +127,17 @@ theorem level_good (hS : schemaOK S = true) (hfrag : FragHyp S ft env frag)
       exact ((sortFields_perm _).map GoField.name).nodup_iff.mpr (goFields_names_nodup hmem hnd)
     -- every statement comes from a fragment member
     have hact_of : ∀ a ∈ actionsOf S td ((typenameFieldOf sels).getD []) conds,
-        ∃ s ∈ sels, ∃ c f, FragPair ft td s c f ∧ a = actionFor S td ((typenameFieldOf sels).getD []) c f := by
+        ∃ s ∈ sels, ∃ c f, FragPair ft (holderTable td.name sels) td s c f ∧ a = actionFor S td ((typenameFieldOf sels).getD []) c f := by
       intro a ha
       obtain ⟨c, f, hhas, rfl⟩ := mem_actionsOf.mp ha
       obtain ⟨s, hs, hp⟩ := (hconds c f).mp hhas
       exact ⟨s, hs, c, f, hp, rfl⟩
-    have hact_mem : ∀ s ∈ sels, ∀ c f, FragPair ft td s c f →
+    have hact_mem : ∀ s ∈ sels, ∀ c f, FragPair ft (holderTable td.name sels) td s c f →
         actionFor S td ((typenameFieldOf sels).getD []) c f ∈ actionsOf S td ((typenameFieldOf sels).getD []) conds := by
       intro s hs c f hp
       exact mem_actionsOf.mpr ⟨c, f, (hconds c f).mpr ⟨s, hs, hp⟩, rfl⟩
     -- the __typename field, when a switch needs it
-    have htyp : ∀ s ∈ sels, ∀ c f, FragPair ft td s c f → isKnown S td c = false →
+    have htyp : ∀ s ∈ sels, ∀ c f, FragPair ft (holderTable td.name sels) td s c f → isKnown S td c = false →
         fieldTy (sortFields (es.map toGoField)) ((typenameFieldOf sels).getD []) = some .string ∧
         baseStr vfs ((typenameFieldOf sels).getD []) = some T := by
       intro s hs c f hp hk
@@ -201,10 +201,10 @@ theorem level_good (hS : schemaOK S = true) (hfrag : FragHyp S ft env frag)
       obtain ⟨g, hg, hrel⟩ := Forall2.mem_right hvfs bf hbf
       obtain ⟨e, he, rfl⟩ := mem_fs_iff.mp hg
       obtain ⟨s, hs, hgood⟩ := Forall2.mem_right hmem e he
-      have hbn : bf.name = fieldName (memberKey td s) := by rw [hrel.2.1, toGoField_name, hgood.1]
+      have hbn : bf.name = fieldName (memberKey (holderTable td.name sels) td s) := by rw [hrel.2.1, toGoField_name, hgood.1]
       -- a statement that names this field belongs to this member
       have hown : ∀ a ∈ actionsOf S td ((typenameFieldOf sels).getD []) conds, a.field = bf.name →
-          ∃ c f, FragPair ft td s c f ∧ a = actionFor S td ((typenameFieldOf sels).getD []) c f := by
+          ∃ c f, FragPair ft (holderTable td.name sels) td s c f ∧ a = actionFor S td ((typenameFieldOf sels).getD []) c f := by
         intro a ha haf
         obtain ⟨s', hs', c, f, hp, rfl⟩ := hact_of a ha
         rw [actionFor_field, (fragPair_key hp).1, hbn] at haf
